@@ -85,7 +85,9 @@ def run(ctx):
                 "x its concrete realisations (int/np.int64, float/np.float64/np.float32, ...); table level = the real "
                 "validator objects vs `Model.accepts` on the regenerated table; call level = real fit(max_iter=1) / call vs "
                 "the documented domains.  check_groups: all lists of <=2 groups of length <=3 and of <=3 groups of length <=2 "
-                "with indices in -1..4 on d in 0..4 features.  A case is non-trivial when the value is not of a type that "
+                "with indices in -1..4 on d in 0..4 features (quick tier: <=2 groups of length <=2 and single groups of "
+                "length <=3), each against the Lean model and the documented behaviour.  Every fit / call runs in a forked "
+                "worker so that a crash of the interpreter is reported as a finding.  A case is non-trivial when the value is not of a type that "
                 "no constraint of that parameter could accept trivially (i.e. a constraint of the row inspects it); "
                 "distinct = distinct (owner, param, value, realisation)")
     ctx.trusted += [
